@@ -162,6 +162,9 @@ def main(tier, seed):
         if zero_mode[0] == 'first' and D >= 3:
             a[1, 0] = 0
             rep.count('zero coefficient blocks', 'first order of direction 0')
+        elif zero_mode[0] == 'late' and D >= 3:
+            a[2, 0] = 0                      # A0 + A1 t (+ A3 t^3): an order >= 2 vanishes while a lower one does not
+            rep.count('zero coefficient blocks', 'second order of direction 0')
         elif zero_mode[0] == 'random':
             for p_ in range(P):
                 for d_ in range(1, D):
@@ -172,8 +175,8 @@ def main(tier, seed):
 
     zero_mode = [None]
     for it_ in range(N):
-        zero_mode[0] = {1: 'first', 3: 'random'}.get(it_ % 4)
-        D = rng.randint(3 if zero_mode[0] == 'first' else 1, Dmax); P = rng.randint(1, 2)
+        zero_mode[0] = {1: 'first', 2: 'late', 3: 'random'}.get(it_ % 4)
+        D = rng.randint(3 if zero_mode[0] in ('first', 'late') else 1, Dmax); P = rng.randint(1, 2)
         tol = TOL * 4 ** D          # observed residuals are ~1e-14; a wrong coefficient is O(1e-3) or more
         # ================================================================= QR (reduced)
         for shape_kind in ('square', 'tall', 'wide'):
